@@ -18,13 +18,13 @@ CHECKS = {
         note="TLC, dump parser, numpy complex exp/cos/sin as evaluator of the transcendental atoms, fft conventions bound by C04; tolerance 1e-11(1+|Im z|)"),
     "C02": dict(
         category="model_checking", design_ref="4/C02", engine="etdrk",
-        technique="TLC stage machine over Q[E,z,1/z] (Tableau, MC_ETDRK) + mpmath-evaluated coefficient cover of the public ETDRKp + TLC trace validation (Trace_ETDRK) of recorded stage traces of every semi-linear stepper",
+        technique="TLC stage machine over Q[E,z,1/z] (Tableau, MC_ETDRK) + mpmath-evaluated coefficient cover of the public ETDRKp + TLC trace validation (Trace_ETDRK) of recorded stage traces of every semi-linear stepper + observed order of rollouts under dt-halving against a tight reference",
         text=("MC_ETDRK executes the stage wiring of ETDRK0-4 symbolically in the ring Q[E,z,1/z] and TLC checks: wiring == canonical Cox-Matthews weights, "
               "row sums c_i*phi1(c_i z), explicitness, removable singularity at z=0, classical limit with all Butcher conditions up to order p, and the "
               "stability function == exp(z+w) through total degree p. The ring elements TLC reached are evaluated by mpmath on a dense cover of z (real "
               "axis 0, +-1e-8..20, down to -1e15; imaginary axis; left half plane) and compared with every stage input and the result of the public "
               "ETDRKp driven with a recording user-defined nonlinear function; one step of every public semi-linear stepper class x order 0-4 is "
-              "recorded at the nonlinear-function boundary and validated by TLC against the stage machine, with the linear symbol from Symbols.tla."),
+              "recorded at the nonlinear-function boundary and validated by TLC against the stage machine, with the linear symbol from Symbols.tla. The property's second observation point - the error of rollouts against a tight reference under dt-halving - is measured on smooth problems (Burgers, KdV, Fisher-KPP; thorough: KS, 2-D Navier-Stokes): mean observed order over three halvings >= p - 0.35."),
         note="TLC, mpmath (60+ digits), the BaseNonlinearFun call boundary, documented linear parts transcribed in Symbols.tla; tolerance 1e-10 relative (cover), 2e5 ulps (traces)"),
     "C03": dict(
         category="model_checking", design_ref="4/C03", engine="nonlin",
@@ -79,7 +79,7 @@ CHECKS = {
               "derivative of the stepper's own nonlinear function (recorded primal evaluations) and compared with jax.jvp; d/d(dt), every coefficient "
               "(at its default, including exactly vanishing ones, and at configurations where an eigenvalue vanishes and the nonlinear term feeds that "
               "mode), rollouts, the zero and constant states and the Wave / Leray guards are compared with 6th-order central differences of the primal "
-              "code in float64, and reverse mode with forward mode."),
+              "code in float64, and reverse mode with forward mode. Replay grids are chosen so that the retained band is not empty (a term without any non-zero predicted derivative stops the check); every argument variant of every semi-linear class in every dimension is differentiated against central differences and the adjoint identity."),
         note="the specification models the maps, not JAX's AD: establishes correct derivatives of the built-in maps only (not of user-defined nonlinear functions); central differences of the code's own primal evaluation decide the dt/coefficient/rollout clauses (the property's own criterion), tolerance 5e-7..5e-8 relative; model-derived oracles 1e-8..1e-9"),
     "C08": dict(
         category="model_checking", design_ref="4/C08", engine="nonlin",
@@ -103,7 +103,7 @@ CHECKS = {
         note="TLC, Trace_Monitor acceptance bound 2e4 ulps of the state magnitude; known finding F9 (3D velocity form on compressible states) is matched by (class, state kind) only"),
     "C10": dict(
         category="model_checking", design_ref="4/C10", engine="nonlin",
-        technique="TLC invariants LerayOK/Rot3dOK on the exact sparse-spectrum machine + replay on random fields + TLC-validated divergence monitoring of 3D rollouts",
+        technique="TLC invariants LerayOK/Rot3dOK on the exact sparse-spectrum machine + replay on random fields + TLC-validated divergence monitoring of 3D rollouts + composed-machine sessions (Session.tla: leray, make_incompressible; both tiers)",
         text=("For every basis sum TLC checks exactly that the Leray projection is divergence-free, idempotent, the identity on divergence-free fields "
               "and on the mean, and that the 3D rotational convection term is divergence-free for every input. Leray and make_incompressible are "
               "compared with each other and with these laws on random Nyquist-free fields (D=2,3, N odd/even, several L); 5-step rollouts of "
@@ -128,7 +128,7 @@ CHECKS = {
               "state (kind, N incl. 49/98, injection mode, steps) is replayed with KolmogorovFlowVelocity / KolmogorovFlowVorticity / "
               "GeneralVorticityConvectionStepper for orders 1-4, L in {2pi, 1, 3, ...}, random gamma/nu/drag/dt/convection scale, comparing the whole "
               "field (channel, direction, wavenumber, amplitude, phase, zero elsewhere). ForcedStepper is compared with step(u + dt f) and the "
-              "unforced step for every public class, physical and Fourier entry points."),
+              "unforced step for every public class, physical and Fourier entry points. The cosine forcing at the Nyquist wavenumber of an even grid (a grid function) is part of the model; |sigma dt| down to 1e-9 for every order."),
         note="TLC, numpy expm1, tolerance 1e-9 of the laminar amplitude; uses MC_ETDRK.RowSumOK (C02) for 'every order'"),
     "C13": dict(
         category="model_checking", design_ref="4/C13", engine="linear",
@@ -158,7 +158,7 @@ CHECKS = {
               "that every copied entry keeps its wavenumber, the mean is preserved for every state, and a mode both grids resolve is mapped to the same "
               "function while unresolved / Nyquist modes are removed; the interpolant's two-sided spectrum equals the basis function for Nyquist-free "
               "modes and reproduces any state on its own grid. Replay: map_between_resolutions and FourierInterpolator on every state with random "
-              "amplitude/phase/L/channels, query points inside and outside the domain, random dense states (both indexings, float-hazard grid sizes)."),
+              "amplitude/phase/L/channels, query points inside and outside the domain, random dense states (both indexings, float-hazard grid sizes). Dense band-limited states (every mode of the box, corners included) are evaluated analytically on both grids for further pairs with even coarse grids."),
         note="TLC, numpy cos, fft conventions (C04); tolerance 1e-10 relative"),
     "C16": dict(
         category="model_checking", design_ref="4/C16", engine="metrics",
@@ -181,7 +181,7 @@ CHECKS = {
               "mode lands in exactly the bin round(|k|) (or nowhere outside the Nyquist sphere), with amplitude 1 and power equal to half the mean "
               "square, and that average = sum / number of stored modes in the bin. Every state is replayed with a random amplitude and a second random "
               "basis function in a second channel (channel independence) through ex.get_spectrum for power/amplitude x sum/average; random states are "
-              "compared with the explicit per-mode sum."),
+              "compared with the explicit per-mode sum. Channels seven decades apart and weak modes superposed on strong ones keep their bins (per-channel tolerance)."),
         note="TLC, numpy cos/sin, tolerance 1e-10"),
     "C18": dict(
         category="model_checking", design_ref="4/C18", engine="ic",
@@ -194,7 +194,7 @@ CHECKS = {
               "that the spectral facts survive affine wrappers. Every terminal state is replayed: rejected combinations must raise ValueError; accepted "
               "ones are built and called for several keys on even and odd grids in D=1,2,3 and every fact is measured (shape, finiteness, determinism, "
               "key dependence, statistics, spectral support, ratio to the white-noise spectrum of the same draw against the power law / diffusion "
-              "multiplier, function form == sampled form, channel j of the multi-channel wrapper == sub-generator j with sub-key j)."),
+              "multiplier, function form == sampled form, channel j of the multi-channel wrapper == sub-generator j with sub-key j). Beyond the fixed parameter instances: cutoff sweep (0 ... beyond Nyquist) and two- and three-fold nested scaling wrappers."),
         note="TLC, dump parser; fixed parameter instances; degenerate RandomDiscontinuities draws (constant raw field) skipped; values of random draws are not predicted; tolerance 1e-9"),
     "C19": dict(
         category="model_checking", design_ref="4/C19", engine="dtype",
@@ -217,7 +217,7 @@ CHECKS = {
               "and evaluates the documented restriction table (dimension-restricted classes and nonlinear terms, order parities, argument lengths, "
               "scaling modes, metric modes, generator flag combinations, window lengths). Every state is replayed into every public stepper class "
               "enumerated from the exports (plus RepeatedStepper and Poisson), every row is executed against the API, and the decisions the hooks "
-              "observed in this run and in the repository's own tests are validated by TLC against the same Decide function."),
+              "observed in this run and in the repository's own tests are validated by TLC against the same Decide function. The restriction table also carries the Poisson order and eleven mutations of the linear-operator shape a user-defined BaseStepper may return."),
         note="TLC, the EXPONAX_VERIF hooks at __call__ boundaries, transcription of the documented restrictions; classes are enumerated at run time"),
 }
 
